@@ -184,7 +184,8 @@ fn armor_header_line(i: &[u8]) -> IResult<&[u8], BlockType> {
     delimited(
         pair(armor_header_sep, tag(&b"BEGIN "[..])),
         armor_header_type,
-        pair(armor_header_sep, line_ending),
+        // whitespace may follow on the same line
+        (armor_header_sep, space0, line_ending),
     )
     .parse(i)
 }
@@ -377,7 +378,12 @@ fn armor_footer_line(i: &[u8]) -> IResult<&[u8], BlockType> {
     delimited(
         tag(&b"---END "[..]),
         armor_header_type,
-        pair(armor_header_sep, opt(complete(line_ending))),
+        // whitespace may follow on the same line
+        (
+            armor_header_sep,
+            opt(complete(space0)),
+            opt(complete(line_ending)),
+        ),
     )
     .parse(i)
 }
